@@ -260,6 +260,74 @@ def callback_kinds(res):
                 bw.close()
 
 
+def dropped_bridge(res):
+    """`await SwitcherBridge(callback, ports).start()` in a helper that keeps no reference: the bridge was started and never
+    stopped, so it is running - whatever the garbage collector does with the Python object."""
+    import gc
+
+    set_zone("UTC")
+    case = {"dropped_bridge": True}
+    with Clock(1_700_000_000.0), Capture():
+        bw = BridgeWorld(2)
+        try:
+            bw.start()
+            bw.send(bw.ports[0], B.encode("V4", name="held"))
+            bw.settle()
+            bw.bridge = None  # nothing refers to the bridge object any more
+            for _ in range(3):
+                gc.collect()
+                bw.settle()
+            sent = ["held"]
+            for i, t in enumerate(("POWER_PLUG", "RUNNER", "BREEZE", "MINI")):
+                name = "g%d" % i
+                bw.send(bw.ports[i % 2], B.encode(t, name=name))
+                sent.append(name)
+                bw.settle()
+                gc.collect()
+            got = [d.name for d in bw.calls]
+            res.case(("dropped-bridge",))
+            res.traces += 1
+            if got != sent:
+                res.violation("delivery-stops-when-bridge-object-is-dropped", case, f"a started bridge that nothing refers to any more: sent {sent}, delivered {got}", sent, got)
+        finally:
+            bw.loop.finish()
+
+
+def failure_runs(res, n):
+    """n raising callbacks in a row, and n undecodable datagrams in a row, on one port: 'a bad datagram or a failing callback
+    never stops later deliveries' however many there were."""
+    set_zone("UTC")
+    for what in ("callback", "undecodable", "mixed"):
+        case = {"failure_run": what, "n": n}
+        with Clock(1_700_000_000.0), Capture():
+            bw = BridgeWorld(2, raise_on=lambda k, dev: dev.name.startswith("boom"))
+            try:
+                bw.start()
+                bad = bytearray(B.encode("TOUCH", name="x"))
+                bad[42:46] = b"\xff\xfe\xfd\xfc"
+                want = []
+                for i in range(n):
+                    if what == "callback" or (what == "mixed" and i % 2 == 0):
+                        name = "boom%d" % i
+                        bw.send(bw.ports[0], B.encode("V4", name=name))
+                        want.append(name)
+                    else:
+                        bw.send(bw.ports[0], bytes(bad))
+                    bw.settle()
+                for i, port in enumerate((0, 1, 0)):
+                    name = "after%d" % i
+                    bw.send(bw.ports[port], B.encode("MINI", name=name))
+                    want.append(name)
+                    bw.settle()
+                got = [d.name for d in bw.calls]
+                res.case(("failure-run", what, n))
+                res.traces += 1
+                if got != want:
+                    res.violation("delivery-stops-after-many-failures", case, f"after {n} consecutive failures ({what}) on one port: delivered {len(got)} of {len(want)} broadcasts; the last ones {got[-3:]}, expected {want[-3:]}", want[-3:], got[-3:])
+            finally:
+                bw.close()
+
+
 def default_ports(res):
     """The bridge exactly as most users create it - SwitcherBridge(callback) on the four well-known ports: every family's
     broadcast is delivered from whichever of those ports it arrives on. Skipped (with a note) when a port is taken."""
@@ -379,7 +447,7 @@ def raise_bound(tier):
 
 def jobs(tier, seed):
     n = 64 if tier == "thorough" else 16
-    return [{"tier": tier, "i": i, "n": n} for i in range(n)] + [{"tier": tier, "long": i, "n": 8} for i in range(8)] + [{"tier": tier, "cbkinds": True}, {"tier": tier, "defaultports": True}, {"tier": tier, "senders": True}]
+    return [{"tier": tier, "i": i, "n": n} for i in range(n)] + [{"tier": tier, "long": i, "n": 8} for i in range(8)] + [{"tier": tier, "cbkinds": True}, {"tier": tier, "defaultports": True}, {"tier": tier, "senders": True}, {"tier": tier, "dropped": True}, {"tier": tier, "failruns": True}]
 
 
 def cost(label, choice):
@@ -394,6 +462,14 @@ def run_job(job):
         return res
     if "cbkinds" in job:
         callback_kinds(res)
+        return res
+    if "dropped" in job:
+        dropped_bridge(res)
+        return res
+    if "failruns" in job:
+        for n in ((8, 33, 130) if tier == "quick" else (8, 33, 130, 300, 1030)):
+            failure_runs(res, n)
+        res.sample({"failure_run": "callback", "n": 33, "then": "three valid broadcasts on both ports must be delivered"})
         return res
     if "senders" in job:
         senders(res)
@@ -496,6 +572,12 @@ def replay(case):
     res = Res()
     if case.get("default_ports"):
         default_ports(res)
+        return [v for v in res.violations if v["case"] == case] or res.violations
+    if case.get("dropped_bridge"):
+        dropped_bridge(res)
+        return res.violations
+    if case.get("failure_run"):
+        failure_runs(res, case["n"])
         return [v for v in res.violations if v["case"] == case] or res.violations
     if case.get("senders"):
         senders(res)
